@@ -44,7 +44,14 @@ class _Continue(Exception):
 _PURE_METHODS = {"join", "get", "items", "keys", "values", "upper", "lower", "encode", "decode", "replace", "split", "rsplit", "partition", "rpartition", "strip", "lstrip", "rstrip",
                  "startswith", "endswith", "isdigit", "isnumeric", "find", "rfind", "count", "index", "hex", "format", "zfill", "removeprefix", "removesuffix", "copy",
                  "append", "extend", "update", "pop", "insert", "clear", "setdefault", "isalpha", "isupper", "islower", "title"}
-_PURE_BUILTINS = {"int": int, "float": float, "str": str, "len": len, "bool": bool, "min": min, "max": max, "abs": abs, "round": round, "list": list, "tuple": tuple, "bytes": bytes}
+def _chain_from_iterable(x):
+    import itertools
+
+    return list(itertools.chain.from_iterable(x))
+
+
+_PURE_BUILTINS = {"enumerate": lambda *a: list(enumerate(*a)), "zip": lambda *a: list(zip(*a)), "range": lambda *a: list(range(*a)), "sorted": sorted, "reversed": lambda x: list(reversed(x)),
+                  "sum": sum, "any": any, "all": all, "bin": bin, "hex": hex, "oct": oct, "chr": chr, "ord": ord, "divmod": divmod, "pow": pow, "int": int, "float": float, "str": str, "len": len, "bool": bool, "min": min, "max": max, "abs": abs, "round": round, "list": list, "tuple": tuple, "bytes": bytes}
 
 
 class Bound:
@@ -120,6 +127,36 @@ class Interp:
 
     # ------------------------------------------------------------------ expressions
     def ev(self, e, env, depth=0):
+        pre = self.__dict__.setdefault("_pre", {})
+        if id(e) in pre:
+            v = pre[id(e)]
+            if isinstance(v, _Unknown):
+                raise v
+            return v
+        if isinstance(e, ast.Call):
+            # Python evaluates the arguments of a call exactly once; several handlers below may look at them, so they are
+            # evaluated here once (side effects such as stream reads must not be repeated) unless the folder decides the call
+            if not self._mentions_obj(e, env):
+                v0 = self.ctx.folder.eval(e, self.module, env=env)
+                if v0 is not UNKNOWN:
+                    return v0
+            mine = []
+            for a in list(e.args) + [k.value for k in e.keywords]:
+                if isinstance(a, ast.Starred) or id(a) in pre:
+                    continue
+                try:
+                    pre[id(a)] = self._ev(a, env, depth)
+                except _Unknown as u:
+                    pre[id(a)] = u
+                mine.append(id(a))
+            try:
+                return self._ev(e, env, depth)
+            finally:
+                for i in mine:
+                    pre.pop(i, None)
+        return self._ev(e, env, depth)
+
+    def _ev(self, e, env, depth=0):
         if isinstance(e, ast.Attribute) and isinstance(e.value, ast.Name) and isinstance(env.get(e.value.id), Obj):
             o = env[e.value.id]
             if e.attr in o.__dict__:
@@ -221,6 +258,10 @@ class Interp:
                     r_ = codec_apply(self.ctx, recv.ci, e.func.attr, [arg])
                     if r_ is not UNKNOWN:
                         return r_
+        if isinstance(e, ast.Call):
+            r_ = self._classmethod_call(e, env, depth)
+            if r_ is not UNKNOWN:
+                return r_
         if isinstance(e, ast.Name) and isinstance(env.get(e.id), (Stream, Bound)):
             return env[e.id]
         if isinstance(e, ast.Call) and isinstance(e.func, (ast.Name, ast.Attribute)) and not self._mentions_obj(e.func, env):
@@ -271,14 +312,31 @@ class Interp:
             kinds = {"str": (str,), "bytes": (bytes,), "bytearray": (bytearray,), "int": (int,), "float": (float,), "bool": (bool,), "list": (list,), "tuple": (tuple,), "dict": (dict,),
                      "set": (set, frozenset), "Sequence": (list, tuple, str, bytes, range), "Mapping": (dict,), "Iterable": (list, tuple, str, bytes, dict, set, range)}
             names = [ast.unparse(x).split(".")[-1] for x in (e.args[1].elts if isinstance(e.args[1], ast.Tuple) else [e.args[1]])]
+            v0 = self.ev(e.args[0], env, depth) if not all(n_ in kinds for n_ in names) else None
+            if isinstance(v0, str) and v0.startswith("<") and v0.endswith(">"):
+                # an exception witness bound by `except ... as err`
+                exc = v0[1:-1]
+                return any(self._exc_isa(exc, n_) for n_ in names)
             if all(n_ in kinds for n_ in names):
                 v_ = self.ev(e.args[0], env, depth)
                 if not isinstance(v_, (Obj, ClassRef, FuncRef, Instance)):
                     return any(isinstance(v_, kinds[n_]) for n_ in names)
         if isinstance(e, ast.Call) and isinstance(e.func, ast.Name) and e.func.id in _PURE_BUILTINS and e.func.id not in env and not e.keywords:
             args = [self.ev(a, env, depth) for a in e.args]
-            if all(isinstance(a, (int, float, str, bytes, bool, list, tuple, type(None))) for a in args):
+            if all(isinstance(a, (int, float, str, bytes, bytearray, bool, list, tuple, dict, range, type(None))) for a in args):
                 return _PURE_BUILTINS[e.func.id](*args)
+        if isinstance(e, ast.Call) and ast.unparse(e.func) in ("pack", "unpack", "unpack_from", "calcsize", "struct.pack", "struct.unpack", "struct.unpack_from", "struct.calcsize") and not e.keywords:
+            import struct as _struct
+
+            args = [self.ev(a, env, depth) for a in e.args]
+            if args and isinstance(args[0], str):
+                try:
+                    r_ = getattr(_struct, ast.unparse(e.func).split(".")[-1])(*args)
+                except _struct.error:
+                    raise _Raise("struct.error")
+                return list(r_) if False else r_
+        if isinstance(e, ast.Call) and ast.unparse(e.func) in ("chain.from_iterable", "itertools.chain.from_iterable") and len(e.args) == 1:
+            return _chain_from_iterable(self.ev(e.args[0], env, depth))
         if isinstance(e, ast.BinOp):
             a, b = self.ev(e.left, env, depth), self.ev(e.right, env, depth)
             v = self.ctx.folder.eval(ast.BinOp(left=ast.Name(id="__a", ctx=ast.Load()), op=e.op, right=ast.Name(id="__b", ctx=ast.Load())), self.module, env={"__a": a, "__b": b})
@@ -302,6 +360,61 @@ class Interp:
             vals = [self.ev(x, env, depth) for x in e.elts]
             return tuple(vals) if isinstance(e, ast.Tuple) else vals
         raise _Unknown(f"expression not foldable: {ast.unparse(e)[:80]}")
+
+    def _exc_isa(self, name, parent):
+        if name == parent or parent in ("Exception", "BaseException"):
+            return True
+        for c in self.ctx.model.classes.values():
+            if c.name == name:
+                return any(k.name == parent for k in c.mro()) or any(getattr(b, "id", None) == parent for k in c.mro() for b in k.node.bases)
+        from .cfg import exc_is_subclass
+
+        return bool(exc_is_subclass(name, parent))
+
+    def _classmethod_call(self, e, env, depth):
+        """X.method(args) where X is a class of the model and method a classmethod / staticmethod found through the MRO."""
+        if not (isinstance(e.func, ast.Attribute) and depth < self.max_depth + 3):
+            return UNKNOWN
+        if self._mentions_obj(e.func.value, env):
+            return UNKNOWN
+        recv = self.ctx.folder.eval(e.func.value, self.module, env=env)
+        if not isinstance(recv, ClassRef):
+            return UNKNOWN
+        dc, m = recv.ci.lookup(e.func.attr)
+        if not isinstance(m, ast.FunctionDef):
+            return UNKNOWN
+        decos = {getattr(d, "id", None) for d in m.decorator_list}
+        if not decos & {"classmethod", "staticmethod"} or any(isinstance(a, ast.Starred) for a in e.args):
+            return UNKNOWN
+        params = [a.arg for a in m.args.args]
+        env2 = {}
+        if "classmethod" in decos:
+            env2[params[0]] = recv
+            params = params[1:]
+        args = [self.ev(a, env, depth) for a in e.args]
+        if len(args) > len(params):
+            if m.args.vararg is None:
+                return UNKNOWN
+            env2[m.args.vararg.arg] = tuple(args[len(params):])
+            args = args[:len(params)]
+        elif m.args.vararg is not None:
+            env2[m.args.vararg.arg] = ()
+        env2.update(zip(params, args))
+        for k in e.keywords:
+            if k.arg:
+                env2[k.arg] = self.ev(k.value, env, depth)
+        other = Interp(self.ctx, dc.module, self.hook, self.max_depth, recv.ci)
+        other.steps = self.steps
+        defaults = m.args.defaults
+        for p_, d_ in zip([a.arg for a in m.args.args][len(m.args.args) - len(defaults):], defaults):
+            if p_ not in env2:
+                env2[p_] = other.ev(d_, {}, depth)
+        for p_ in params:
+            if p_ not in env2:
+                return UNKNOWN
+        r = other.call(m, env2, depth + 1)
+        self.steps = other.steps
+        return r
 
     @staticmethod
     def _mentions_obj(e, env):
@@ -420,7 +533,7 @@ class Interp:
             if isinstance(recv, ast.Name) and recv.id in env and isinstance(env[recv.id], (list, dict, set)):
                 args = [self.ev(a, env, depth) for a in e.args]
                 m = e.func.attr
-                if m in ("append", "extend", "update", "add", "pop", "insert", "setdefault", "clear"):
+                if m in ("append", "extend", "update", "add", "pop", "insert", "setdefault", "clear", "reverse", "sort", "remove", "discard"):
                     getattr(env[recv.id], m)(*args)
                     return
         raise _Unknown(f"call for effect: {ast.unparse(e)[:60]}")
